@@ -348,7 +348,20 @@ def b5(ctx, rid):
         for o in ogs:
             if o.kind == 'unop':
                 ogs2 += core.origins(f, o.data['o'])
-        if not any(o.kind == 'call' and o.data.name in ('unwrap_or', 'map', 'zip') for o in ogs2) and not any(o.kind == 'unop' for o in ogs):
+        def decides_by_merge(o):
+            if o.kind != 'call':
+                return False
+            c = o.data
+            if c.name == 'checked_add_assign':
+                return True
+            for a in c.args:
+                l = op_local(a)
+                if l is not None and o.fn.locals[l].get('h') == 'closure':
+                    g = prog.fns.get(o.fn.locals[l]['a'][0])
+                    if g is not None and any(x.name == 'checked_add_assign' for x in g.calls):
+                        return True
+            return False
+        if not any(decides_by_merge(o) for o in ogs2) and not any(o.kind == 'call' and o.data.name in ('unwrap_or', 'map', 'zip') for o in ogs2):
             continue
         # one edge must always pass a None store before returning, the other is the `merged ok` edge
         tg = [x for _, x in t['vals']] + [t['otherwise']]
